@@ -49,24 +49,25 @@ type shape struct {
 }
 
 type scenario struct {
-	Name    string  `json:"name"`
-	Shapes  []shape `json:"shapes"`
-	N       int     `json:"n"`     // response body size
-	R       int     `json:"r"`     // range start (0 = full 200)
-	Chunk   int     `json:"chunk"` // body reader chunk size (0 = whole)
-	Match   bool    `json:"match"`
-	Conns   int     `json:"conns"` // connections, run one after the other unless Concurrent
-	Conc    bool    `json:"conc,omitempty"`
-	Barrier bool `json:"barrier,omitempty"` // concurrent connections: the origin answers only once every connection's request has arrived, so that all handlers start writing their shaped responses from the same instant
-	Reconf  string  `json:"reconf,omitempty"` // "", rejected-before, accepted-after-accept, accepted-in-flight
-	Reconf2 string  `json:"reconf_cfg,omitempty"`
-	Latency int64   `json:"latency,omitempty"`
-	Bound   int     `json:"bound,omitempty"`
-	MatchIdx int    `json:"matchidx,omitempty"`
-	Seq      []bool `json:"seq,omitempty"`     // keep-alive: the requests one client connection sends in turn (true = the URL the shape names, false = another URL)
-	ReqClose bool   `json:"reqclose,omitempty"` // the request carries "Connection: close" (the proxy then marks the response accordingly, after the modifiers)
-	Teardown string `json:"teardown,omitempty"` // "wrapped-first": after the exchange the wrapped (inner) connection is closed before the shaped one, so closing the shaped connection reports an error
-	HeadPad  int    `json:"headpad,omitempty"` // the response head carries an X-Pad header of this many bytes (heads larger than the proxy's 4096-byte write buffer reach the shaped connection in several writes) // index of the shape whose url_regex matches the requested URL (the others name other URLs)
+	Name     string  `json:"name"`
+	Shapes   []shape `json:"shapes"`
+	N        int     `json:"n"`     // response body size
+	R        int     `json:"r"`     // range start (0 = full 200)
+	Chunk    int     `json:"chunk"` // body reader chunk size (0 = whole)
+	Match    bool    `json:"match"`
+	Conns    int     `json:"conns"` // connections, run one after the other unless Concurrent
+	Conc     bool    `json:"conc,omitempty"`
+	Barrier  bool    `json:"barrier,omitempty"` // concurrent connections: the origin answers only once every connection's request has arrived, so that all handlers start writing their shaped responses from the same instant
+	Reconf   string  `json:"reconf,omitempty"`  // "", rejected-before, accepted-after-accept, accepted-in-flight
+	Reconf2  string  `json:"reconf_cfg,omitempty"`
+	Latency  int64   `json:"latency,omitempty"`
+	Bound    int     `json:"bound,omitempty"`
+	TBound   int     `json:"tbound,omitempty"` // thorough bound when it is not Bound+1
+	MatchIdx int     `json:"matchidx,omitempty"`
+	Seq      []bool  `json:"seq,omitempty"`      // keep-alive: the requests one client connection sends in turn (true = the URL the shape names, false = another URL)
+	ReqClose bool    `json:"reqclose,omitempty"` // the request carries "Connection: close" (the proxy then marks the response accordingly, after the modifiers)
+	Teardown string  `json:"teardown,omitempty"` // "wrapped-first": after the exchange the wrapped (inner) connection is closed before the shaped one, so closing the shaped connection reports an error
+	HeadPad  int     `json:"headpad,omitempty"`  // the response head carries an X-Pad header of this many bytes (heads larger than the proxy's 4096-byte write buffer reach the shaped connection in several writes) // index of the shape whose url_regex matches the requested URL (the others name other URLs)
 }
 
 type finding struct{ Sig, Desc string }
@@ -160,8 +161,8 @@ type connObs struct {
 
 // expectation for one connection according to the reference model
 type expect struct {
-	bodyLen  int  // bytes of body delivered
-	cut      bool // connection closed by a close action
+	bodyLen  int           // bytes of body delivered
+	cut      bool          // connection closed by a close action
 	minDelay time.Duration // sum of the halts that apply
 	thrDelay time.Duration // sum over throttled intervals of (bytes/bandwidth - one drain interval)
 }
@@ -819,7 +820,7 @@ func scenarios(tier string) []scenario {
 		out = append(out, scenario{Name: "count-conc-barrier", Shapes: []shape{{Regex: matchURL, Closes: []closeAct{{Byte: 100, Count: cnt}}}}, N: 600, Match: true, Conns: 2, Conc: true, Barrier: true, Bound: 2})
 		if cnt > 0 {
 			out = append(out, scenario{Name: "count-conc-barrier", Shapes: []shape{{Regex: matchURL, Closes: []closeAct{{Byte: 100, Count: cnt}}}}, N: 600, Match: true, Conns: 3, Conc: true, Barrier: true, Bound: 1})
-			out = append(out, scenario{Name: "haltcount-conc-barrier", Shapes: []shape{{Regex: matchURL, Halts: []halt{{Byte: 100, Dur: 4000, Count: cnt}}}}, N: 600, Match: true, Conns: 2, Conc: true, Barrier: true, Bound: 2})
+			out = append(out, scenario{Name: "haltcount-conc-barrier", Shapes: []shape{{Regex: matchURL, Halts: []halt{{Byte: 100, Dur: 4000, Count: cnt}}}}, N: 600, Match: true, Conns: 2, Conc: true, Barrier: true, Bound: 1, TBound: 2})
 		}
 	}
 	// reconfiguration timing
@@ -943,6 +944,9 @@ func main() {
 			b := sc.Bound
 			if tier == "thorough" && b > 0 {
 				b++
+				if sc.TBound > 0 {
+					b = sc.TBound
+				}
 			}
 			body, check := run(sc)
 			st := vrt.Explore(vrt.ExploreConfig{Bound: b, Deadline: time.Now().Add(per), Config: vrt.Config{MaxPoints: 2000000, MaxVTime: 2 * time.Hour}}, body, func(prefix []int, r *vrt.Result) bool {
@@ -1010,7 +1014,7 @@ func main() {
 	rep.Coverage["transitions"] = rep.Counter("points")
 	rep.Coverage["traces_validated_against_impl"] = rep.Counter("executions")
 	rep.Coverage["exhaustive"] = rep.Incomplete == ""
-	rep.Coverage["bounds"] = fmt.Sprintf("%d scenarios: close actions at offsets {0,1,n-1,n,n+1,5000,6000}+range start x sizes {0,1,600,4095,4096,4097,10000} x range starts {0,1,4096} x body chunkings; halts/throttles (single, adjacent, gap, max bandwidth), latency, non-matching URL; counts {1,2,-1} over sequential and concurrent connections; reconfiguration after accept / in flight; 35 invalid configurations (incl. valid defaults with invalid shapes); shared global bandwidth over sequential/concurrent connections; default schedule, <=1 (quick) / <=2 (thorough) deviations for concurrent scenarios", len(scen))
+	rep.Coverage["bounds"] = fmt.Sprintf("%d scenarios: close actions at offsets {0,1,n-1,n,n+1,5000,6000}+range start x sizes {0,1,600,4095,4096,4097,10000} x range starts {0,1,4096} x body chunkings; halts/throttles (single, adjacent, gap, max bandwidth), latency, non-matching URL; counts {1,2,-1} over sequential and concurrent connections; reconfiguration after accept / in flight; 35 invalid configurations (incl. valid defaults with invalid shapes); shared global bandwidth over sequential/concurrent connections; default schedule, <=1-2 (quick) / <=2-3 (thorough) deviations for concurrent scenarios (per-scenario bound chosen so that it completes)", len(scen))
 	rep.Coverage["explanation"] = "each execution runs the real proxy.go + trafficshape over simnet with virtual time; bucket spin loops are parked until the epoch changes (a drain tick)"
 	rep.Assumptions = []string{"virtual time only advances at quiescence; ticker phase is fixed by bucket creation time", "Content-Length framing only"}
 	rep.Finish()
